@@ -610,12 +610,13 @@ Definition m_step (i : nat) (m : mst) (o : op) (obs : ostep) : mst :=
       let all := concat (map units_of finals) in
       let dup := snd (fold_left (fun acc x => (cadd x (fst acc), snd acc || cmem x (fst acc))) all (cempty, false)) in
       let m3 := viol_if dup m2 V_FINAL_DUP i in
-      (* what is still owed to a held run of an application that is not inactive must be in the final requests *)
+      (* what is still owed to a held run must be in the final requests -- also when its application has been silent for
+         longer than the inactivity time-out (the final harvest does not remove applications: fix de635d6) *)
       let live (r : Z) : bool :=
         run_held m3 r &&
         match find_run r (m_runs m3) with
         | Some x => match find_app (mr_owner x) (m_apps m3) with
-                    | Some a => negb (600 <? m_clock m3 - ma_last_activity a)
+                    | Some a => true
                     | None => false end
         | None => false end in
       let in_finals (o : Z * N * Z) :=
